@@ -111,11 +111,40 @@ def slice_mean(ctx: Ctx):
     e = expand(ctx.repo, ssd, "blocks", stop=lambda mm: mm.name in ("is_defined", "_stddev_func", "_counts", "_opposing_numeric_values", "_scale_means"))
     leaf = main_leaf(e)
     ctx.check_expr("slice-stddev", f"{MM}::_ScaleMeanStddev.blocks", leaf, "[self._stddev_func(count, self._opposing_numeric_values, scale_means) for count, scale_means in zip(self._counts, self._scale_means)]")
-    for fn, ax, mask in (("_rows_weighted_mean_stddev", 1, "counts[:, not_a_nan_index]"), ("_columns_weighted_mean_stddev", 0, "counts[not_a_nan_index, :]")):
+    for fn, ax in (("_rows_weighted_mean_stddev", 1), ("_columns_weighted_mean_stddev", 0)):
         m = ctx.repo.lookup(ssd, fn)
-        src = ast.unparse(m.node)
-        ok = f"denominator = np.sum({mask}, axis={ax})" in src and f"variance = np.nansum(numerator, axis={ax}) / denominator" in src and "return np.sqrt(variance)" in src and "not_a_nan_index = ~np.isnan(values)" in src
-        ctx.ob("slice-stddev", f"{MM}::_ScaleMeanStddev.{fn}", ok, True, ok, f"sqrt(sum(count (v - mean)^2) / sum(count)) along axis {ax}, over numeric-valued categories")
+        where = f"{MM}::_ScaleMeanStddev.{fn}"
+        if m is None:
+            ctx.undecided("slice-stddev", where, "helper not found", "")
+            continue
+        val = SUMMARIZER.summarize(m.node)
+        # (a) every reduction runs along the orientation's axis
+        axes = [k.value for n in ast.walk(val) if isinstance(n, ast.Call) and u(n.func) in ("np.sum", "np.nansum", "np.mean", "np.nanmean") for k in n.keywords if k.arg == "axis"]
+        axes += [n.args[1] for n in ast.walk(val) if isinstance(n, ast.Call) and u(n.func) in ("np.sum", "np.nansum") and len(n.args) > 1]
+        consts = [a.value for a in axes if isinstance(a, ast.Constant)]
+        if not consts or len(consts) != len(axes):
+            ctx.undecided("slice-stddev.axis", where, [u(a) for a in axes], f"reductions along axis {ax}")
+        else:
+            ctx.ob("slice-stddev.axis", where, consts, f"every reduction along axis {ax}", all(c == ax for c in consts), f"the {'rows' if ax else 'columns'} statistic reduces along axis {ax}")
+        # (b) counts are restricted to the numeric-valued categories on the OPPOSING axis
+        masks = []
+        for n in ast.walk(val):
+            if isinstance(n, ast.Subscript) and u(n.value) == "counts" and isinstance(n.slice, ast.Tuple) and len(n.slice.elts) == 2:
+                pos = [i for i, x in enumerate(n.slice.elts) if "isnan" in u(x)]
+                full = [i for i, x in enumerate(n.slice.elts) if isinstance(x, ast.Slice) and x.lower is None and x.upper is None]
+                if len(pos) == 1 and len(full) == 1:
+                    masks.append(pos[0])
+        if not masks:
+            ctx.undecided("slice-stddev.mask", where, "no `counts[..mask..]` restriction recognised", f"numeric-valued mask on axis {ax}")
+        else:
+            ctx.ob("slice-stddev.mask", where, masks, f"numeric-valued mask on axis {ax} of the counts", all(p == ax for p in masks), "categories without a numeric value are ignored")
+        # (c) population standard deviation: sqrt(sum(count * (v - mean)^2) / sum(count))
+        formula = main_leaf(val)
+        is_sqrt = (isinstance(formula, ast.Call) and u(formula.func) == "np.sqrt") or (isinstance(formula, ast.BinOp) and isinstance(formula.op, ast.Pow) and u(formula.right) == "0.5")
+        inner = formula.args[0] if isinstance(formula, ast.Call) and formula.args else (formula.left if isinstance(formula, ast.BinOp) else None)
+        is_ratio = isinstance(inner, ast.BinOp) and isinstance(inner.op, ast.Div) and "sum(" in u(inner.left) and "sum(" in u(inner.right)
+        squared = inner is not None and ("** 2" in u(inner) or "pow(" in u(inner) or "np.square(" in u(inner))
+        ctx.ob("slice-stddev", where, u(val)[:140], "sqrt(sum(count (v - mean)^2) / sum(count))", True if (is_sqrt and is_ratio and squared) else None, f"population standard deviation along axis {ax}, over numeric-valued categories")
 
 
 def slice_stderr(ctx: Ctx):
@@ -196,13 +225,47 @@ def median_piecewise(ctx: Ctx):
         ctx.check_expr("median.half-point", where + " [median_idx]", locate[0], ["np.argmax(cumulative_prop >= 0.5)", "np.argmax(cumulative_counts >= cumulative_counts[-1] / 2)", "np.searchsorted(cumulative_prop, 0.5)"], "first value whose cumulative share reaches one half")
     else:
         ctx.undecided("median.half-point", where + " [median_idx]", "the half-point is not located by a single assignment", "np.argmax(cumulative_prop >= 0.5)")
-    ties = [n.test for n in ast.walk(m.node) if isinstance(n, (ast.If, ast.IfExp)) and "median_idx" in u(n.test)]
-    for t in ties:
-        tol = [u(c.func) for c in ast.walk(t) if isinstance(c, ast.Call) and u(c.func).split(".")[-1] in ("isclose", "allclose", "approx")]
+    # the TIE branch (the one that averages two neighbouring values) is taken iff exactly half are at or below
+    from ..stmts import match_any
+
+    body = SUMMARIZER.summarize(m.node)
+    n_ties = 0
+    for gs, leaf in strip_ifexp_paths(body):
+        lt = u(leaf)
+        if "+ 1" not in lt or "mean" not in lt:
+            continue
+        n_ties += 1
+        held = []
+        for g, pol in gs:
+            if pol:
+                held += g.values if isinstance(g, ast.BoolOp) and isinstance(g.op, ast.And) else [g]
+            else:
+                parts = g.values if isinstance(g, ast.BoolOp) and isinstance(g.op, ast.Or) else [g]
+                held += [ast.UnaryOp(op=ast.Not(), operand=p) for p in parts]
+        tol = [u(c.func) for h in held for c in ast.walk(h) if isinstance(c, ast.Call) and u(c.func).split(".")[-1] in ("isclose", "allclose", "approx")]
         if tol:
-            ctx.violated("median.tie-test", where + f" [{u(t)[:60]}]", u(t), "cumulative_prop[median_idx] == 0.5",
+            ctx.violated("median.tie-test", where + " [tie branch]", [u(h)[:70] for h in held], "cumulative share == 0.5 exactly",
                          "approximate tie test: a vector in which just over half the respondents are at or below the value reports the mean of two values")
-        else:
-            ctx.check_expr("median.tie-test", where + f" [{u(t)[:60]}]", t, ["cumulative_prop[median_idx] == 0.5", "2 * cumulative_counts[median_idx] == cumulative_counts[-1]", "cumulative_counts[median_idx] * 2 == cumulative_counts[-1]"], "the mean of two neighbouring values is reported only when EXACTLY half are at or below the lower one")
-    ctx.count("median tie tests", len(ties))
+            continue
+        from ..exprdiff import canon
+
+        ok, why = None, "no comparison of the cumulative share with one half found on the tie path"
+        for h in held:
+            h = canon(h)
+            if isinstance(h, ast.Compare) and len(h.ops) == 1:
+                sides = [h.left, h.comparators[0]]
+                half = [x for x in sides if isinstance(x, ast.Constant) and x.value == 0.5]
+                other = [x for x in sides if not (isinstance(x, ast.Constant) and x.value == 0.5)]
+                if half and other and "cumsum" in u(other[0]):
+                    if isinstance(h.ops[0], ast.Eq):
+                        ok, why = True, ""
+                    else:
+                        ok, why = False, f"the tie branch is taken on `{type(h.ops[0]).__name__}` 0.5, not on equality"
+                    break
+                # 2 * cum[idx] == cum[-1]
+                if isinstance(h.ops[0], ast.Eq) and "cumsum" in u(h.left) and "cumsum" in u(h.comparators[0]) and ("2 *" in u(h) or "* 2" in u(h)):
+                    ok, why = True, ""
+                    break
+        ctx.ob("median.tie-test", where + " [tie branch]", [u(h)[:90] for h in held][-1:], "cumulative share at the half-point == 0.5 (exactly)", ok, why or "the mean of two neighbouring values is reported only when EXACTLY half are at or below the lower one")
+    ctx.count("median tie tests", n_ties)
     ctx.require_min("median tie tests", 1)
